@@ -274,6 +274,10 @@ def stepLine (s0 : DState) (line : String) : DState × String :=
     let evs := effectiveEvents s0 r.events
     let ld : Int := (kvInt rest "ld").getD (Facts.pruneDepth : Int)
     ({ s with repo := r }, s!"r={showFail "clean" e} {tipStr r} ev=[{joinWith "," (evs.map evKind)}] p=[{joinWith "," (crashPrefixes s0 evs r s.genesis ld)}]\n{storeOKStats s0 evs}")
+  | "cfginv" :: rest =>
+    match (kv rest "ids").bind parseNatList with
+    | some ids => ({ s with repo := { s.repo with cfg := { s.repo.cfg with cfgInvalid := ids } } }, "ok")
+    | none => (s, "bad-op")
   | "mark" :: rest =>
     match kvNat rest "id" with
     | some id => let (r, e) := markInvalid s.repo id; ({ s with repo := r }, s!"r={showFail "mark" e} {tipStr r}")
